@@ -353,6 +353,9 @@ func main() {
 		c.caseLog = f
 	}
 	c.outPath = out
+	if hookAvailable {
+		c.res.Counters["internal_invariant_hook_available"] = 1
+	}
 	fn(&c)
 	c.finish()
 }
